@@ -46,7 +46,7 @@ def gen_file(ctx, tag, max_records, format_weights=None, allow_mixed_optint=Fals
         style["prefer_mixed_optint"] = True
     if canonical:
         noncanon = False
-        style.update({"float_repr": True, "no_missing": True, "no_extra": True})
+        style.update({"float_repr": True, "no_missing": True, "no_extra": True, "no_list_trailing_comma": True})
     records = T.gen_records(tape, fmt, max_records, noncanon=noncanon, style=style)
     data, lay = T.serialize(fmt, records, style)
     gz = bool(allow_gzip and tape.boolean(tag + "gzip", 1, 3))
